@@ -45,8 +45,9 @@ def job_svg(job):
     def stub_create(I_, args):
         fail = T.var('create_fails', 1)
         err = I_.mk([T.var('errid_create', 8)], 'IoError')
-        # File: [holds exactly the rendering (width-1), something other than the rendering was ever written (width-1)]
-        f = I_.mk([0, 0], 'File')
+        # File: [holds exactly the rendering (width-1), something other than the rendering was ever written (width-1),
+        #        content from before the open survives around what is written (width-1; File::create truncates -> 0)]
+        f = I_.mk([0, 0, 0], 'File')
         log['files'].append(f)
         log['create'] = (tuple(I_.pc), fail, err)
         return I_.mk([T.zext(1, 64, fail), {0: I_.mk([f]), 1: I_.mk([err])}], 'symenum')
@@ -54,7 +55,7 @@ def job_svg(job):
     def raw_write(I_, f, bytes_ref, ok):
         """a write of bytes_ref reaches the file iff ok"""
         if is_rendering(bytes_ref):
-            I_.write(f, 0, T.ite(1, ok, T.lnot(f[1]), f[0]))
+            I_.write(f, 0, T.ite(1, ok, T.land(T.lnot(f[1]), T.lnot(f[2])), f[0]))
         else:
             I_.write(f, 1, T.lor(f[1], ok))
             I_.write(f, 0, T.land(f[0], T.lnot(ok)))
@@ -66,6 +67,49 @@ def job_svg(job):
         log['writes'].append((tuple(I_.pc), 'file', fail, err, args[1]))
         raw_write(I_, f, args[1], T.lnot(fail))
         return I_.mk([T.zext(1, 64, fail), {0: I_.mk([()]), 1: I_.mk([err])}], 'symenum')
+
+    # OpenOptions: [read, write, append, truncate, create, create_new] as set by the builder calls (concrete booleans)
+    OO = {'read': 0, 'write': 1, 'append': 2, 'truncate': 3, 'create': 4, 'create_new': 5}
+
+    def stub_oo_new(I_, args):
+        return I_.mk([0, 0, 0, 0, 0, 0], 'OpenOptions')
+
+    def mk_oo_set(field):
+        def st(I_, args):
+            oo = args[0].c[args[0].k]
+            if type(args[1]) is not int:
+                raise M.Unsupported('OpenOptions flag set to a symbolic value')
+            I_.write(oo, OO[field], args[1])
+            return args[0]
+        return st
+
+    def stub_oo_open(I_, args):
+        oo = args[0].c[args[0].k]
+        fail = T.var('create_fails', 1)
+        err = I_.mk([T.var('errid_create', 8)], 'IoError')
+        # without truncate (or create_new) whatever the file held before survives beyond / before the bytes written:
+        # one free boolean "the old content is longer than what is written" (append: "the old content is not empty")
+        survives = 0 if (oo[OO['truncate']] or oo[OO['create_new']]) else T.var('old_content_survives', 1)
+        f = I_.mk([0, 0, survives], 'File')
+        log['files'].append(f)
+        log['create'] = (tuple(I_.pc), fail, err)
+        log['open_options'] = list(oo)
+        return I_.mk([T.zext(1, 64, fail), {0: I_.mk([f]), 1: I_.mk([err])}], 'symenum')
+
+    def stub_fs_write(I_, args):
+        # std::fs::write(path, bytes) = File::create + write_all
+        cfail = T.var('create_fails', 1)
+        wfail = fresh('write_fails')
+        err = I_.mk([T.var('errid_write', 8)], 'IoError')
+        f = I_.mk([0, 0, 0], 'File')
+        log['files'].append(f)
+        log['create'] = (tuple(I_.pc), cfail, err)
+        b = args[1]
+        if type(b) is Ptr:
+            b = I_.lib.as_slice(b)
+        log['writes'].append((tuple(I_.pc), 'file', wfail, err, b))
+        raw_write(I_, f, b, T.land(T.lnot(cfail), T.lnot(wfail)))
+        return I_.mk([T.zext(1, 64, T.lor(cfail, wfail)), {0: I_.mk([()]), 1: I_.mk([err])}], 'symenum')
 
     def stub_bw_new(I_, args):
         return I_.mk([args[0], None, 0], 'BufWriter')          # [file, pending bytes, pending flag]
@@ -101,6 +145,18 @@ def job_svg(job):
     I.drop_hooks['BufWriter'] = drop_bw
     I.stubs['SvgBuilder::to_str'] = stub_to_str
     I.stubs['std::fs::File::create::<&str>'] = stub_create
+    for pre in ('OpenOptions', 'std::fs::OpenOptions'):
+        I.stubs[pre + '::new'] = stub_oo_new
+        for fld in OO:
+            I.stubs['%s::%s' % (pre, fld)] = mk_oo_set(fld)
+        I.stubs[pre + '::open::<&str>'] = stub_oo_open
+        I.stubs[pre + '::open'] = stub_oo_open
+    I.stubs['std::fs::File::options'] = stub_oo_new
+    I.stubs['File::options'] = stub_oo_new
+    I.stubs['std::fs::File::create_new::<&str>'] = stub_create
+    for nm in ('std::fs::write::<&str, String>', 'std::fs::write::<&str, &String>', 'std::fs::write::<&str, &str>', 'std::fs::write::<&str, &[u8]>',
+               'std::fs::write::<&str, Vec<u8>>'):
+        I.stubs[nm] = stub_fs_write
     for nm in ('<std::fs::File as std::io::Write>::write_all', '<File as std::io::Write>::write_all', '<std::fs::File as Write>::write_all'):
         I.stubs[nm] = stub_write_file
     for nm in ('BufWriter::<std::fs::File>::new', 'BufWriter::<File>::new', 'std::io::BufWriter::<std::fs::File>::new'):
@@ -111,7 +167,7 @@ def job_svg(job):
     for nm in ('<BufWriter<std::fs::File> as std::io::Write>::flush', '<BufWriter<File> as std::io::Write>::flush',
                '<std::io::BufWriter<std::fs::File> as std::io::Write>::flush', '<BufWriter<std::fs::File> as Write>::flush'):
         I.stubs[nm] = stub_bw_flush
-    path = I.const_val(type('C', (), {'kind': 'str', 'val': b'out.svg'})())
+    path = M.OpaqueSlice('path', T.var('path_len', 64, below=1 << 16), True)          # any string
     b = I.mk(['builder'], 'opaque')
     q = I.mk(['qr'], 'opaque')
     cell = I.mk([b, q])
@@ -170,7 +226,8 @@ def job_image(job):
     I.stubs['Pixmap::save_png::<&str>'] = stub_save
     I.stubs['<png::encoder::EncodingError as ToString>::to_string'] = lambda I_, a: I_.lib.new_string([ord('e')])
     I.stubs['std::io::Error::new::<String>'] = lambda I_, a: I_.mk(['from save_png'], 'IoError')
-    path = I.const_val(type('C', (), {'kind': 'str', 'val': b'out.png'})())
+    # the path is any string: unknown content, symbolic length
+    path = M.OpaqueSlice('path', T.var('path_len', 64, below=1 << 16), True)
     cell = I.mk([I.mk(['builder'], 'opaque'), I.mk(['qr'], 'opaque')])
     r = I.call_fn(prog.resolve('ImageBuilder::to_file'), [Ptr(cell, 0), Ptr(cell, 1), path])
     if r is M.DEAD:
@@ -179,7 +236,7 @@ def job_image(job):
     if 'save' in log:
         fail, err, pm, p_ = log['save']
         items.append(('save_png saves the rendered pixmap', 1 if (type(pm) is L and pm.tag == 'Pixmap') else 0))
-        items.append(('save_png gets the caller\'s path', 1 if (type(p_) is SliceRef and p_.c is path.c) else 0))
+        items.append(('save_png gets the caller\'s path', 1 if p_ is path else 0))
         items.append(('Ok(()) iff save_png succeeded', T.eq(1, T.eq(64, r[0], 0), T.lnot(fail))))
         errs = r[1].get(1) if r.tag == 'symenum' else None
         if errs is None:
@@ -237,15 +294,55 @@ def finish_job(res, I, items, pan, name, free):
     return res
 
 
+def confirm_native_image(chk, f):
+    """ImageBuilder::to_file on the real file system: a failing save with paths of the length / byte structure of the model"""
+    native = chk.native()
+    import tempfile
+    import shutil
+    model = f.get('model') or {}
+    d = tempfile.mkdtemp(prefix='fqv-c19-')
+    mod = '00' * 441
+    out = []
+    offs = sorted({int(k.rsplit('_', 1)[1]) for k in model if k.startswith('char_boundary_') and k.rsplit('_', 1)[1].isdigit()} | {40})
+    tails = ['a' * 80, '\u00e9' * 60, 'a' + '\u00e9' * 60, '\u20ac' * 40, 'a' + '\u20ac' * 40, 'aa' + '\u20ac' * 40]
+    for off in offs:
+        # a multi-byte character straddling byte offset `off` of the whole path
+        base = os.path.join(d, 'nope') + '/'
+        pad = max(0, off - len(base.encode()) - 1)
+        tails.append('a' * pad + '\u00e9' * 30)
+    for t in tails:
+        for pth in (os.path.join(d, 'nope', t), t + '/' + 'x.png'):
+            ans = native.ask('image_to_file v=0 mod=%s path=%s' % (mod, pth.encode().hex()))
+            out.append((pth[-24:], ans[:90]))
+            if ans.startswith('PANIC') or ans == 'ABORT':
+                f['confirmed'] = True
+                f['what'] += '; native: ImageBuilder::to_file(%r) panics instead of returning Err: %s' % (pth, ans[:90])
+                f['replay'] = {'request': 'image_to_file v=0 mod=<441 zero modules> path=%s' % pth.encode().hex()}
+                native.close()
+                shutil.rmtree(d, ignore_errors=True)
+                return f
+            if ans.startswith('OK'):
+                f['confirmed'] = True
+                f['what'] += '; native: ImageBuilder::to_file(%r) into a missing directory returns Ok' % pth
+    native.close()
+    shutil.rmtree(d, ignore_errors=True)
+    f.setdefault('replay', {'native_fault_runs': out[:6]})
+    return f
+
+
 def confirm_native(chk, f):
     """fault replay on the real file system: missing directory / path is a directory / ok path"""
+    if 'ImageBuilder' in f.get('key', ''):
+        return confirm_native_image(chk, f)
     native = chk.native()
     import tempfile
     d = tempfile.mkdtemp(prefix='fqv-c19-')
     mod = '00' * 441
     out = []
-    for label, path in (('ok', os.path.join(d, 'a.svg')), ('missing directory', os.path.join(d, 'nope', 'a.svg')), ('path is a directory', d),
-                        ('device full', '/dev/full')):
+    with open(os.path.join(d, 'old.svg'), 'wb') as fh:
+        fh.write(b'x' * 200000)          # longer than any V1 rendering: must not survive
+    for label, path in (('ok', os.path.join(d, 'a.svg')), ('ok', os.path.join(d, 'old.svg')), ('missing directory', os.path.join(d, 'nope', 'a.svg')),
+                        ('path is a directory', d), ('device full', '/dev/full')):
         if label == 'device full' and not os.path.exists('/dev/full'):
             continue
         ans = native.ask('svg_to_file v=0 mod=%s path=%s' % (mod, path.encode().hex()))
